@@ -17,7 +17,7 @@ func init() {
 		Title: "Time segments partition the timeline; each point lives in exactly one",
 		Decides: "timestamp.TimeRange.Contains/Overlapping/Include have exactly interval semantics with the inclusivity flags, over every ordering of their endpoints (non-degenerate ranges); " +
 			"segment creation runs under the controller lock, re-checks for an existing segment containing the instant before creating a directory, caps the new end at the next segment's start, persists that end before loading, and keeps the list sorted; a persisted end overrides the directory-derived one on open; the segment list is accessed under the controller lock; " +
-			"writers pick a segment by the written point's own timestamp (never the clock) and through the same Contains predicate.",
+			"writers pick a segment by the written point's own timestamp (never the clock) and through the same Contains predicate.; the multi-hour / multi-day grid never feeds a count of absolute hours into a sub-day wall-clock field of time.Date",
 		NotDecided: "grid arithmetic (IntervalRule.Standard/NextTime), DST/time-zone behaviour, stability of the partition across restarts — value-level calendar computations.",
 		Technique:  "finite-domain evaluation of interval predicates; CFG ordering and must-lockset; SSA def-use of the segment-selection argument",
 		Run:        runC06,
@@ -26,7 +26,7 @@ func init() {
 		ID:    "C07",
 		Title: "Retention removes only fully expired segments and hides them at once",
 		Decides: "TimeRange.Before(t) holds exactly when the whole range lies before t; retention (remove) deletes and unlists a segment only on the branch where its range is Before the deadline parameter, and queries (SelectSegments) drop — and release — exactly the segments whose range is Before the retention deadline, using the same predicate; " +
-			"both deadlines derive from the live TTL option at the time of use, and a live options update always stores the new TTL; forced cleanup keeps at least one segment, deletes exactly one, under the controller lock; retention and forced cleanup take the retention gate without blocking and release it.; every read of the TTL through the controller's shared options holds optsMutex (a copy taken under the lock) — the rule is rewritten in place by live group updates",
+			"both deadlines derive from the live TTL option at the time of use, and a live options update always stores the new TTL; forced cleanup keeps at least one segment, deletes exactly one, under the controller lock; retention and forced cleanup take the retention gate without blocking and release it.; every read of the TTL through the controller's shared options holds optsMutex (a copy taken under the lock) — the rule is rewritten in place by live group updates; the instant handed to the retention run derives from the clock (never from the event time of written data alone)",
 		NotDecided: "clock behaviour, tick sequences, timing of the cron run, what estimatedDuration computes.",
 		Technique:  "finite-domain evaluation of the interval predicate; guarded-call (control dependence) on resolved predicate calls; SSA def-use for the TTL source; channel-semaphore pairing",
 		Run:        runC07,
